@@ -15,7 +15,7 @@ SeedN == atoi(IOEnv.KV_SEED)
 Full == Tier = "thorough"
 Depth == IF Full THEN 4 ELSE 3
 
-Names == {"a", "@a", "@@a", "@", "default", "@B", "b", "@ä b", "\"q\"", "@x'y"}
+Names == {"a", "@a", "@@a", "@", "default", "@B", "b", "@ä b", "\"q\"", "@x'y", "a@", "@a@"}
 C(op, file, name) == [op |-> op, file |-> file, name |-> name]
 Muts == {C("set", Files[i], n) : i \in 1..Len(Files), n \in Names}
         \cup {C("setdefault", Files[i], "") : i \in 1..Len(Files)}
